@@ -86,6 +86,15 @@ var targetPool = []target{
 	// index 9: r1's name spelled with the final dot of a fully-qualified name. The API lists names without it and this package
 	// compares names as given: no record of that name (whatever one thinks of that, it must be so wherever the name occurs in a list)
 	{"example.org", "example.org."},
+	// index 10 (round 14): the record with priority 0
+	{"example.org", "zero-prio.example.org"},
+	// index 11, 12 (round 14): ZONE names spelled with the final dot - the API knows no zone of that spelling (it matches the name
+	// as sent), so nothing is found there; what was learnt about that spelling says nothing about the plain one
+	{"example.org.", "example.org"},
+	{"unknown.test.", "unknown.test"},
+	// index 13 (round 14): NO zone name at all. The API takes an empty name filter for no filter and lists every zone of the
+	// account; none of them is the zone that was asked for, so this is an unknown zone: not found, nothing touched
+	{"", "example.org"},
 }
 
 const basePool = 5
@@ -101,6 +110,8 @@ func newStore(v1 string, pages bool) *cfmem.API {
 		{ID: "rec8", Name: "hi-prio.example.org", Priority: 65535, Target: "last-resort.example.org", Value: `alpn="h2"`},
 		{ID: "recA1", Name: "example.org", Type: "A", Value: "192.0.2.1"},
 		{ID: "recT2", Name: "www.example.org", Type: "TXT", Value: "v=spf1 -all"},
+		// round 14: a record with priority 0 (the smallest there is, and what a missing member decodes to): a record like any other
+		{ID: "rec0", Name: "zero-prio.example.org", Priority: 0, Target: "pool.example.net", Value: `alpn="h2"`},
 	}}
 	if pages {
 		// 45 more records so that r1/r2 are spread over three pages
@@ -424,7 +435,7 @@ func run(r *ev.Run, sc scenario) {
 				if tp.Zone == "example.org" && tp.Name == "sub.example.org" && id == "rec4" || tp.Zone == "sub.example.org" && tp.Name == "sub.example.org" && id == "rec5" {
 					ok = true
 				}
-				if (tp.Name == "example.org" && id == "rec1") || (tp.Name == "www.example.org" && id == "rec2") || (tp.Name == "example.net" && id == "rec3") {
+				if (tp.Zone != "" && tp.Name == "example.org" && id == "rec1") || (tp.Name == "www.example.org" && id == "rec2") || (tp.Name == "example.net" && id == "rec3") || (tp.Zone == "example.org" && tp.Name == "zero-prio.example.org" && id == "rec0") {
 					ok = true
 				}
 			}
@@ -584,6 +595,15 @@ func Run(r *ev.Run) {
 		for c := 0; c < 2; c++ {
 			for _, v1 := range []int{1, 3} {
 				scs = append(scs, scenario{V1: v1, Calls: []call{{l, c}}, FailCall: -1}, scenario{V1: v1, Calls: []call{{l, c}, {l, 1 - c}}, FailCall: -1})
+			}
+		}
+	}
+	// round 14: the priority-0 record alone and next to r1; zones spelled with a final dot before and after the plain spelling
+	for _, l := range [][]int{{10}, {10, 0}, {0, 10}, {10, 10}, {11}, {11, 0}, {0, 11}, {11, 0, 11}, {11, 1}, {12, 3}, {3, 12}, {12, 0}, {13}, {13, 0}, {0, 13}, {13, 4}, {13, 13}} {
+		for c := 0; c < 2; c++ {
+			for _, v1 := range []int{1, 3} {
+				scs = append(scs, scenario{V1: v1, Calls: []call{{l, c}}, FailCall: -1}, scenario{V1: v1, Calls: []call{{l, c}, {l, 1 - c}}, FailCall: -1},
+					scenario{V1: v1, Calls: []call{{l[:1], c}, {[]int{0, 1}, c}}, FailCall: -1})
 			}
 		}
 	}
